@@ -320,7 +320,9 @@ def check_reduce_coverage(ctx):
         problems = []
         if len(rets) != 1 or not isinstance(rets[0].value, ast.Tuple) or len(rets[0].value.elts) < 2:
             raise AnalysisError('%s.__reduce__: return value is not a (callable, args[, state]) tuple' % cls)
-        elts = rets[0].value.elts
+        # (temporaries that hold the class / the state are read through: each is written once, directly in front of the return)
+        defs_ = {n_: v_ for n_, v_ in util.single_defs(f).items() if v_ is not None}
+        elts = [util.inline(e, defs_) for e in rets[0].value.elts]
         mentioned = set()
         for e in elts[1:]:
             for n in ast.walk(e):
